@@ -9,3 +9,4 @@ from . import parse_version  # noqa
 from . import version_cmp  # noqa
 from . import config_init  # noqa
 from . import diff  # noqa
+from . import rewrite_lines  # noqa
